@@ -16,6 +16,18 @@ void *h3v_calloc(size_t a, size_t b) { if (h3v_count++ == h3v_fail_at) return 0;
 void *h3v_realloc(void *p, size_t n) { if (h3v_count++ == h3v_fail_at) return 0; if (!p) h3v_live++; return realloc(p, n); }
 void h3v_free(void *p) { if (p) h3v_live--; free(p); }
 
+/* C17 oracle: run call() with the i-th allocation refused, for i = 0..upto; a refused request must yield E_MEMORY_ALLOC,
+ * and no block may stay allocated on any exit.  Returns a message or NULL. */
+static char c17_msg[256];
+#define C17_RUN(upto, CALL, DESC, BAD)                                                                             \
+    for (long fi = -1; fi <= (upto); fi++) {                                                                  \
+        h3v_fail_at = fi; h3v_count = 0; h3v_live = 0;                                                         \
+        H3Error rc_ = (CALL);                                                                                 \
+        int refused_ = (fi >= 0 && h3v_count > fi);                                                            \
+        if (h3v_live != 0) { snprintf(c17_msg, sizeof c17_msg, "%s: %ld block(s) still allocated on return (rc %u, refused allocation #%ld)", DESC, h3v_live, rc_, fi); goto BAD; } \
+        if (refused_ && rc_ != S_ERR_MEMORY_ALLOC) { snprintf(c17_msg, sizeof c17_msg, "%s: allocation #%ld was refused but the call returned %u instead of E_MEMORY_ALLOC(13)", DESC, fi, rc_); goto BAD; } \
+        if (!refused_ && fi >= 0) break;                                                                      \
+    }
 static uint64_t U(const char *s) { return strtoull(s, 0, 0); }
 static int64_t I(const char *s) { return strtoll(s, 0, 0); }
 #define DISAGREE(...) do { printf("DISAGREE: " __VA_ARGS__); printf("\n"); return 3; } while (0)
